@@ -7,8 +7,10 @@ package collection
 // Time layout inside one bubble (virtual clock, offsets from bubble start):
 //   * the cache (and with it the wheel's 1 s ticker) is created at J ns (< 1 ms),
 //     so wheel ticks happen at J + n*1s;
-//   * sequential operations and taker arrivals happen at instants = 50 ms (mod 100 ms);
-//   * fetch functions take k*100 ms + 20 ms, so fetches complete at = 70 ms (mod 100 ms);
+//   * sequential operations happen at instants = 50 ms (mod 100 ms), callers of a take
+//     group arrive at 50 ms + 2 ms * key index (mod 100 ms);
+//   * fetch functions take k*100 ms + 20 ms, so fetches of key i complete at
+//     70 ms + 2 ms * i (mod 100 ms): events of different keys never share an instant;
 //   * snapshots taken while a take group is running happen at tick + 10 ms.
 // Hence no operation ever coincides with a wheel tick or with another kind of
 // event, and "number of ticks the wheel has seen" == floor(offset / 1 s).
@@ -36,9 +38,11 @@ const (
 	c17OpPhase    = 50 * time.Millisecond
 	c17FetchPhase = 20 * time.Millisecond
 	c17PeekPhase  = 10 * time.Millisecond
+	c17KeyPhase   = 2 * time.Millisecond
 )
 
 type c17Taker struct {
+	Key int  `json:"key"`           // key index; callers of key i arrive 2*i ms after the grid instant
 	At  int  `json:"at"`            // arrival offset, in 100 ms units
 	Lat int  `json:"lat"`           // fetch latency = Lat*100 ms + 20 ms
 	Err bool `json:"err,omitempty"` // fetch fails
@@ -46,7 +50,7 @@ type c17Taker struct {
 
 type c17Op struct {
 	K   string     `json:"k"`             // set setx get del adv take
-	Key int        `json:"key,omitempty"` // key index
+	Key int        `json:"key,omitempty"` // key index (take: see the callers)
 	E   int        `json:"e,omitempty"`   // setx: expiry in ms
 	N   int        `json:"n,omitempty"`   // adv: ticks
 	T   []c17Taker `json:"t,omitempty"`   // take: the callers
@@ -229,16 +233,16 @@ func c17Lat(tk c17Taker) time.Duration {
 // key is in flight it waits for it and gets its result; otherwise exactly one
 // of the callers arriving at that instant runs its fetch. The result of a
 // successful fetch is cached (with the cache's expiry), a failed one is not.
-func c17CheckGroup(m *c17Model, key string, op c17Op, vals []int, errs []error, log []c17Ev, expMs int, what string) string {
+func c17CheckGroup(m *c17Model, op c17Op, vals []int, errs []error, log []c17Ev, expMs int, what string) string {
 	type flight struct {
 		leader  int
 		start   time.Duration
 		waiters map[int]bool
 	}
-	var fl *flight
+	flights := map[string]*flight{}
 	arrived := map[int]bool{}
 	returned := map[int]bool{}
-	execs := 0
+	execs := map[string]int{}
 	for bi := 0; bi < len(log); {
 		bj := bi
 		for bj < len(log) && log[bj].at == log[bi].at {
@@ -264,6 +268,18 @@ func c17CheckGroup(m *c17Model, key string, op c17Op, vals []int, errs []error, 
 			}
 		}
 		w := fmt.Sprintf("%s at +%v (tick %d)", what, at, tick)
+		key := ""
+		for _, e := range batch {
+			if e.kind == c17EvPeek {
+				continue
+			}
+			k := c17Key(op.T[e.who].Key)
+			if key != "" && k != key {
+				return w + ": harness: events of two keys share an instant"
+			}
+			key = k
+		}
+		fl := flights[key]
 		switch {
 		case len(peeks) > 0:
 			if len(peeks) != len(batch) {
@@ -313,7 +329,7 @@ func c17CheckGroup(m *c17Model, key string, op c17Op, vals []int, errs []error, 
 					m.classes["take-evicts"] = true
 				}
 			}
-			fl = nil
+			delete(flights, key)
 		default:
 			if len(arr) == 0 {
 				return fmt.Sprintf("%s: caller events without an arrival: %d fetch starts, %d returns", w, len(fst), len(ret))
@@ -326,7 +342,7 @@ func c17CheckGroup(m *c17Model, key string, op c17Op, vals []int, errs []error, 
 			}
 			ent, cached := m.ents[key]
 			switch {
-			case fl != nil:
+			case fl != nil && !cached:
 				if len(fst) > 0 {
 					return fmt.Sprintf("%s: caller %d ran fetch while the execution of caller %d (started +%v) was in flight", w, fst[0].who, fl.leader, fl.start)
 				}
@@ -375,17 +391,23 @@ func c17CheckGroup(m *c17Model, key string, op c17Op, vals []int, errs []error, 
 					return fmt.Sprintf("%s: caller %d returned (%v,%v) before the fetch completed", w, ret[0].who, ret[0].val, ret[0].err)
 				}
 				fl = &flight{leader: lead, start: at, waiters: map[int]bool{}}
+				flights[key] = fl
 				for _, a := range arr {
 					fl.waiters[a.who] = true
 				}
-				execs++
+				if execs[key]++; execs[key] >= 2 {
+					m.classes["take-two-executions"] = true
+				}
+				if len(flights) >= 2 {
+					m.classes["take-two-keys-in-flight"] = true
+				}
 				if len(arr) > 1 {
 					m.classes["take-overlap"] = true
 				}
 			}
 		}
 	}
-	if fl != nil {
+	if len(flights) != 0 {
 		return what + ": an execution of fetch never completed"
 	}
 	for i := range op.T {
@@ -393,10 +415,24 @@ func c17CheckGroup(m *c17Model, key string, op c17Op, vals []int, errs []error, 
 			return fmt.Sprintf("%s: caller %d arrived=%v returned=%v", what, i, arrived[i], returned[i])
 		}
 	}
-	if execs >= 2 {
-		m.classes["take-two-executions"] = true
-	}
 	return ""
+}
+
+func c17FirstAt(ts []c17Taker, j int) int {
+	for f := 0; f < j; f++ {
+		if ts[f].At == ts[j].At && ts[f].Key == ts[j].Key {
+			return f
+		}
+	}
+	return j
+}
+
+func c17NormTakers(ts []c17Taker) []c17Taker {
+	out := append([]c17Taker(nil), ts...)
+	for j := range out {
+		out[j] = out[c17FirstAt(out, j)]
+	}
+	return out
 }
 
 func c17Keys(s map[int]bool) []int {
@@ -513,6 +549,9 @@ func c17Run(c c17Case, classes map[string]bool) string {
 				if (newPos > oldPos) != (rel(newPos) > rel(oldPos)) {
 					classes["reset-straddle"] = true
 				}
+				if lo, _ := c17Window(expMs); lo >= c17Slots || old.lo >= c17Slots {
+					classes["reset-multi-revolution"] = true
+				}
 			}
 		}
 		lo, _ := c17Window(expMs)
@@ -523,6 +562,16 @@ func c17Run(c c17Case, classes map[string]bool) string {
 		return check(what)
 	}
 
+	switch {
+	case len(c.Ops) <= 5:
+		classes["ops-1..5"] = true
+	case len(c.Ops) <= 15:
+		classes["ops-6..15"] = true
+	case len(c.Ops) <= 30:
+		classes["ops-16..30"] = true
+	default:
+		classes["ops-31.."] = true
+	}
 	for i, o := range c.Ops {
 		what := fmt.Sprintf("op %d %s (tick %d)", i, c17OpString(o), tickNow())
 		key := c17Key(o.Key)
@@ -572,10 +621,18 @@ func c17Run(c c17Case, classes map[string]bool) string {
 				return f
 			}
 		case "take":
+			// Callers arriving at the same instant share one fetch specification
+			// (latency, outcome, value): which of them becomes the executing caller
+			// is up to the scheduler, and the verdict must not depend on it.
+			o.T = c17NormTakers(o.T)
 			n := len(o.T)
 			vals := make([]int, n)
 			errs := make([]error, n)
 			for j := range o.T {
+				if f := c17FirstAt(o.T, j); f < j {
+					vals[j], errs[j] = vals[f], errs[f]
+					continue
+				}
 				nextVal++
 				vals[j] = nextVal
 				errs[j] = errors.New(fmt.Sprintf("c17 fetch error %d", nextVal))
@@ -597,11 +654,11 @@ func c17Run(c c17Case, classes map[string]bool) string {
 					span = tk.At
 				}
 				go func() {
-					if tk.At > 0 {
-						time.Sleep(time.Duration(tk.At) * c17Grid)
+					if d := time.Duration(tk.At)*c17Grid + time.Duration(tk.Key)*c17KeyPhase; d > 0 {
+						time.Sleep(d)
 					}
 					rec(c17Ev{kind: c17EvArrive, who: j})
-					v, err := cache.Take(key, func() (any, error) {
+					v, err := cache.Take(c17Key(tk.Key), func() (any, error) {
 						rec(c17Ev{kind: c17EvFetchStart, who: j})
 						time.Sleep(c17Lat(tk))
 						rec(c17Ev{kind: c17EvFetchEnd, who: j})
@@ -645,7 +702,7 @@ func c17Run(c c17Case, classes map[string]bool) string {
 			} else {
 				classes["take-single"] = true
 			}
-			if f := c17CheckGroup(m, key, o, vals, errs, log, c.Exp, what); f != "" {
+			if f := c17CheckGroup(m, o, vals, errs, log, c.Exp, what); f != "" {
 				return f
 			}
 			if f := check(what + " end"); f != "" {
@@ -700,7 +757,7 @@ func c17OpString(o c17Op) string {
 	case "adv":
 		return fmt.Sprintf("adv(%d)", o.N)
 	case "take":
-		return fmt.Sprintf("take(k%d,%+v)", o.Key, o.T)
+		return fmt.Sprintf("take(%+v)", o.T)
 	}
 	return o.K
 }
@@ -743,59 +800,113 @@ type c17GenKey struct {
 	live     bool
 }
 
-func c17Gen(rt *rapid.T) c17Case {
-	c := c17Case{}
-	c.Limit = rapid.SampledFrom([]int{0, 1, 2, 2, 3, 3, 4}).Draw(rt, "limit")
-	c.Exp = c17GenExp(rt, "exp")
-	c.J = rapid.IntRange(0, 999999).Draw(rt, "j")
-	c.Off = rapid.IntRange(0, c17Slots-1).Draw(rt, "off")
-	c.NK = rapid.IntRange(1, 6).Draw(rt, "nk")
-	n := rapid.IntRange(1, 40).Draw(rt, "nops")
-	now := c.Off
-	gk := make([]c17GenKey, c.NK)
-	for i := 0; i < n; i++ {
-		o := c17Op{K: rapid.SampledFrom([]string{"set", "set", "set", "setx", "setx", "get", "get", "del", "adv", "adv", "adv", "take", "take"}).Draw(rt, "kind")}
+// c17RawOp is drawn statelessly (so that rapid can delete and shrink single
+// ops); c17Gen then resolves the "aimed" advances into explicit tick counts.
+type c17RawOp struct {
+	op   c17Op
+	mode string // adv: one few lo hi rev long
+	aim  int
+	d    int
+}
+
+func c17GenRawOp(nk int) *rapid.Generator[c17RawOp] {
+	// keys skewed towards low indices so that re-sets and re-reads of the same
+	// key are frequent while all nk keys still occur
+	keyGen := rapid.Custom(func(rt *rapid.T) int {
+		k := rapid.IntRange(0, nk-1).Draw(rt, "key")
+		if k2 := rapid.IntRange(0, nk-1).Draw(rt, "key2"); k2 < k && rapid.Bool().Draw(rt, "skew") {
+			k = k2
+		}
+		return k
+	})
+	return rapid.Custom(func(rt *rapid.T) c17RawOp {
+		r := c17RawOp{}
+		o := &r.op
+		o.K = rapid.SampledFrom([]string{"set", "set", "set", "setx", "setx", "get", "get", "del", "adv", "adv", "adv", "take", "take"}).Draw(rt, "kind")
 		switch o.K {
-		case "set":
-			o.Key = rapid.IntRange(0, c.NK-1).Draw(rt, "key")
-			gk[o.Key] = c17GenKey{set: now, exp: c.Exp, live: true}
+		case "set", "get", "del":
+			o.Key = keyGen.Draw(rt, "k")
 		case "setx":
-			o.Key = rapid.IntRange(0, c.NK-1).Draw(rt, "key")
+			o.Key = keyGen.Draw(rt, "k")
 			o.E = c17GenExp(rt, "e")
-			gk[o.Key] = c17GenKey{set: now, exp: o.E, live: true}
-		case "get":
-			o.Key = rapid.IntRange(0, c.NK-1).Draw(rt, "key")
-		case "del":
-			o.Key = rapid.IntRange(0, c.NK-1).Draw(rt, "key")
-			gk[o.Key].live = false
 		case "adv":
-			switch rapid.SampledFrom([]string{"one", "few", "few", "lo", "lo", "hi", "hi", "rev", "long"}).Draw(rt, "adv") {
+			r.mode = rapid.SampledFrom([]string{"one", "few", "few", "lo", "lo", "hi", "hi", "rev", "long"}).Draw(rt, "adv")
+			switch r.mode {
 			case "one":
 				o.N = 1
 			case "few":
 				o.N = rapid.IntRange(2, 9).Draw(rt, "n")
 			case "lo", "hi":
-				// aim at the expiry window of some key the generator believes live
-				k := rapid.IntRange(0, c.NK-1).Draw(rt, "aim")
-				d := rapid.IntRange(-2, 2).Draw(rt, "d")
-				exp := c.Exp
-				set := now
-				if gk[k].live {
-					exp, set = gk[k].exp, gk[k].set
-				}
-				lo, hi := c17Window(exp)
-				tgt := set + lo
-				if rapid.Bool().Draw(rt, "hi") {
-					tgt = set + hi
-				}
-				o.N = tgt - now + d
-				if o.N < 1 {
-					o.N = rapid.IntRange(1, 3).Draw(rt, "n")
-				}
+				// aim at the expiry window of a key the generator believes live
+				r.aim = rapid.IntRange(0, nk-1).Draw(rt, "aim")
+				r.d = rapid.IntRange(-2, 2).Draw(rt, "d")
+				o.N = rapid.IntRange(1, 3).Draw(rt, "n") // fallback
 			case "rev":
 				o.N = rapid.IntRange(c17Slots-5, c17Slots+5).Draw(rt, "n")
 			case "long":
 				o.N = rapid.IntRange(c17Slots+6, 700).Draw(rt, "n")
+			}
+		case "take":
+			key := keyGen.Draw(rt, "k")
+			nt := rapid.SampledFrom([]int{1, 1, 2, 3, 4, 5}).Draw(rt, "nt")
+			for j := 0; j < nt; j++ {
+				tkey := key
+				if rapid.IntRange(0, 4).Draw(rt, "other-key") == 0 {
+					tkey = keyGen.Draw(rt, "k2") // callers of different keys must not share executions
+				}
+				o.T = append(o.T, c17Taker{
+					Key: tkey,
+					At:  rapid.SampledFrom([]int{0, 0, 0, 1, 2, 5, 9, 10, 11, 20, 30}).Draw(rt, "at"),
+					Lat: rapid.SampledFrom([]int{0, 1, 3, 5, 10, 12, 25}).Draw(rt, "lat"),
+					Err: rapid.IntRange(0, 3).Draw(rt, "err") == 0,
+				})
+			}
+			o.T = c17NormTakers(o.T)
+		}
+		return r
+	})
+}
+
+func c17Gen(rt *rapid.T) c17Case {
+	c := c17Case{}
+	c.Limit = rapid.SampledFrom([]int{0, 1, 2, 2, 3, 3, 4}).Draw(rt, "limit")
+	c.Exp = c17GenExp(rt, "exp")
+	c.J = rapid.IntRange(0, 999999).Draw(rt, "j")
+	switch rapid.SampledFrom([]string{"any", "any", "any", "end", "end", "begin"}).Draw(rt, "off-class") {
+	case "any":
+		c.Off = rapid.IntRange(0, c17Slots-1).Draw(rt, "off")
+	case "end": // the wheel pointer wraps around during the case
+		c.Off = rapid.IntRange(c17Slots-15, c17Slots-1).Draw(rt, "off")
+	default:
+		c.Off = rapid.IntRange(0, 5).Draw(rt, "off")
+	}
+	c.NK = rapid.IntRange(1, 6).Draw(rt, "nk")
+	if c.Limit > 0 && c.NK <= c.Limit && rapid.IntRange(0, 3).Draw(rt, "nk-over") > 0 {
+		c.NK = c.Limit + 1 // evictions need more keys than the limit
+	}
+	minOps := rapid.SampledFrom([]int{1, 6, 12, 24}).Draw(rt, "min-ops")
+	raw := rapid.SliceOfN(c17GenRawOp(c.NK), minOps, 60).Draw(rt, "ops")
+	now := c.Off
+	gk := make([]c17GenKey, c.NK)
+	for _, r := range raw {
+		o := r.op
+		switch o.K {
+		case "set":
+			gk[o.Key] = c17GenKey{set: now, exp: c.Exp, live: true}
+		case "setx":
+			gk[o.Key] = c17GenKey{set: now, exp: o.E, live: true}
+		case "del":
+			gk[o.Key].live = false
+		case "adv":
+			if (r.mode == "lo" || r.mode == "hi") && gk[r.aim].live {
+				lo, hi := c17Window(gk[r.aim].exp)
+				tgt := gk[r.aim].set + lo
+				if r.mode == "hi" {
+					tgt = gk[r.aim].set + hi
+				}
+				if n := tgt - now + r.d; n >= 1 {
+					o.N = n
+				}
 			}
 			now += o.N
 			for k := range gk {
@@ -806,23 +917,17 @@ func c17Gen(rt *rapid.T) c17Case {
 				}
 			}
 		case "take":
-			o.Key = rapid.IntRange(0, c.NK-1).Draw(rt, "key")
-			nt := rapid.SampledFrom([]int{1, 1, 2, 3, 4, 5}).Draw(rt, "nt")
 			span := 0
-			for j := 0; j < nt; j++ {
-				tk := c17Taker{
-					At:  rapid.SampledFrom([]int{0, 0, 0, 1, 2, 5, 9, 10, 11, 20, 30}).Draw(rt, "at"),
-					Lat: rapid.SampledFrom([]int{0, 1, 3, 5, 10, 12, 25}).Draw(rt, "lat"),
-					Err: rapid.IntRange(0, 3).Draw(rt, "err") == 0,
-				}
+			for _, tk := range o.T {
 				if tk.At+tk.Lat > span {
 					span = tk.At + tk.Lat
 				}
-				o.T = append(o.T, tk)
 			}
 			now += span / 10
-			if !gk[o.Key].live {
-				gk[o.Key] = c17GenKey{set: now, exp: c.Exp, live: true}
+			for _, tk := range o.T {
+				if !gk[tk.Key].live {
+					gk[tk.Key] = c17GenKey{set: now, exp: c.Exp, live: true}
+				}
 			}
 		}
 		c.Ops = append(c.Ops, o)
@@ -831,6 +936,76 @@ func c17Gen(rt *rapid.T) c17Case {
 }
 
 func TestVerif_C17_history(t *testing.T) {
-	kit.Run(t, "C17", "cache-history", kit.Opts{Quick: 1500, Thorough: 160000}, c17Gen,
+	kit.Run(t, "C17", "cache-history", kit.Opts{Quick: 6000, Thorough: 160000}, c17Gen,
 		func(c c17Case) kit.Verdict { return c17Interp(t, c) })
+}
+
+// Small-scope exhaustive rule: a key is set with expiry e1, re-set (directly or
+// after a Del) b ticks later with expiry e2, at EVERY phase 0..299 of the
+// 300-slot wheel, and must then be dropped inside the window of the re-set
+// (checked tick by tick by the same interpreter, horizon included).
+func c17EnumerateResets(thorough bool) func(yield func(c17Case) bool) {
+	e1s := []int{3000, 200000, 400000}
+	e2s := []int{3000, 290000, 650000}
+	kinds := []string{"setx"}
+	if thorough {
+		e1s = []int{2000, 3000, 10000, 200000, 290000, 310000, 400000, 900000}
+		e2s = []int{2000, 10000, 100000, 290000, 310000, 650000, 1200000}
+		kinds = []string{"setx", "del-setx", "set"}
+	}
+	return func(yield func(c17Case) bool) {
+		idx := 0
+		for _, e1 := range e1s {
+			lo1, _ := c17Window(e1)
+			bs := []int{1, lo1 - 1}
+			if thorough {
+				bs = []int{1, 2, 7, lo1 - 1, c17Slots - 1, c17Slots, c17Slots + 1}
+			}
+			seen := map[int]bool{}
+			for _, b := range bs {
+				if b < 1 || b >= lo1 || seen[b] {
+					continue // the key must still be live for certain at the re-set
+				}
+				seen[b] = true
+				for _, e2 := range e2s {
+					for _, kind := range kinds {
+						for off := 0; off < c17Slots; off++ {
+							idx++
+							c := c17Case{Limit: 0, Exp: e2, J: (off*7919 + idx*104729) % 1000000, Off: off, NK: 1}
+							c.Ops = append(c.Ops, c17Op{K: "setx", E: e1}, c17Op{K: "adv", N: b})
+							switch kind {
+							case "setx":
+								c.Ops = append(c.Ops, c17Op{K: "setx", E: e2})
+							case "set":
+								c.Ops = append(c.Ops, c17Op{K: "set"})
+							case "del-setx":
+								c.Ops = append(c.Ops, c17Op{K: "del"}, c17Op{K: "setx", E: e2})
+							}
+							if !yield(c) {
+								return
+							}
+						}
+					}
+				}
+			}
+		}
+	}
+}
+
+func TestVerif_C17_resetphases(t *testing.T) {
+	kit.Enumerate(t, "C17", "cache-reset-phases", c17EnumerateResets(kit.Thorough()),
+		func(c c17Case) kit.Verdict {
+			v := c17Interp(t, c)
+			v.NonTrivial = v.NonTrivial || c17Contains(v.Classes, "reset-live-later-tick")
+			return v
+		})
+}
+
+func c17Contains(ss []string, x string) bool {
+	for _, s := range ss {
+		if s == x {
+			return true
+		}
+	}
+	return false
 }
